@@ -346,7 +346,7 @@ func run(c *mon.Ctx) {
 			}
 		}
 	})
-	kr := c.N(3, 6)
+	kr := c.N(3, 10)
 	c.Exhaustive(fmt.Sprintf("ReadFrom: k 0..%d (+tail 0/95) x reader failure after every byte count x 5 reader kinds", kr), 0)
 	c.StreamSeedless("readfrom-read-faults", (kr+1)*2, func(i int, r *gen.Rand) {
 		k, tail := i/2, (i%2)*95
@@ -357,7 +357,7 @@ func run(c *mon.Ctx) {
 			}
 		}
 	})
-	c.Stream("random", c.N(6000, 400000), func(i int, r *gen.Rand) {
+	c.Stream("random", c.N(6000, 20000000), func(i int, r *gen.Rand) {
 		k := r.Intn(12)
 		tail := 0
 		if r.Chance(3) {
